@@ -265,6 +265,11 @@ func (p *Project) Transform() Query {
 		// combine projects by removing all but the first
 		return newProject(q.source, p.columns).Transform()
 	case *Summarize:
+		if q.wholeRow {
+			// the result also has the source columns
+			// so the project can't be merged or moved
+			break
+		}
 		cols := make([]string, 0, len(q.cols))
 		ops := make([]string, 0, len(q.ops))
 		ons := make([]string, 0, len(q.ons))
@@ -279,7 +284,12 @@ func (p *Project) Transform() Query {
 			return newProject(q.source, p.columns).Transform()
 		}
 		if set.HasSubset(p.columns, q.by) {
-			return NewSummarize(q.source, q.hint, q.by, cols, ops, ons).Transform()
+			su := NewSummarize(q.source, q.hint, q.by, cols, ops, ons)
+			if su.wholeRow {
+				// a single min or max adds the source columns
+				return newProject(su, p.columns).Transform()
+			}
+			return su.Transform()
 		}
 	case *Rename:
 		return p.transformRename(q)
